@@ -144,6 +144,35 @@ def shiftText (u : Uni) (key : Key) : Key :=
 
 def decodeKey (u : Uni) (s : Seq) : Key := shiftText u (decodeRaw u s)
 
+/-! ### Go's `int` is 64 bits
+
+The model computes with `Int`.  CSI parameters are Go `int`s (the parser accumulates digits with silent
+wrap-around, so any int64 value is reachable from bytes), and the only arithmetic `decodeKey` does on them
+as `int` is `pm[0] - 1` (modifiers) and `EventType(ps) - 1`: over int64 these differ from ℤ exactly at
+`math.MinInt64`, where `p - 1` wraps to `MaxInt64` — which is what ℤ computes for `p + 2^64 = 2^63`.
+`decodeKey64` is `decodeKey` with that one substitution, i.e. the decoder with Go's 64-bit subtraction
+(`Props/C09Int64.lean` proves `wrap64 (p - 1) = int64Fix p - 1` on the whole int64 range). -/
+
+def minInt64 : Int := -9223372036854775808
+
+/-- `x` as an int64 (two's complement wrap). -/
+def wrap64 (x : Int) : Int := (x + 9223372036854775808) % 18446744073709551616 - 9223372036854775808
+
+def int64Fix (p : Int) : Int := if p = minInt64 then 9223372036854775808 else p
+
+/-- The modifier / event sub-parameters (`params[1][0]`, `params[1][1]`) with `int64Fix` applied. -/
+def int64Params : List (List Int) → List (List Int)
+  | p0 :: p1 :: rest => p0 :: (match p1 with
+      | m :: e :: r => int64Fix m :: int64Fix e :: r
+      | [m] => [int64Fix m]
+      | [] => []) :: rest
+  | ps => ps
+
+/-- `decodeKey` with Go's 64-bit `int` arithmetic. -/
+def decodeKey64 (u : Uni) : Seq → Key
+  | .csi params fin => decodeKey u (.csi (int64Params params) fin)
+  | s => decodeKey u s
+
 /-- `Key.Matches(key, mods)` (the variadic masks are already or-ed together). -/
 def «matches» (u : Uni) (k : Key) (key : Int) (modsIn : Nat) : Bool :=
   let mods := andNot (andNot modsIn ModCapsLock) ModNumLock
